@@ -74,9 +74,17 @@ func NewBoundedPriorityMailbox(capacity int, priorityFunc PriorityFunc) *Bounded
 // Enqueue places the given message in the mailbox. It is lock-free, never
 // blocks, and returns gerrors.ErrMailboxFull when the mailbox is at capacity.
 func (q *BoundedPriorityMailbox) Enqueue(msg *ReceiveContext) error {
-	if atomic.AddInt64(&q.length, 1) > q.capacity {
-		atomic.AddInt64(&q.length, -1)
-		return gerrors.ErrMailboxFull
+	// Reserve a slot with a CAS loop rather than add-then-undo: a rejected
+	// enqueue must never inflate length, otherwise concurrent rejections make
+	// another producer see a full mailbox after the consumer has freed a slot.
+	for {
+		n := atomic.LoadInt64(&q.length)
+		if n >= q.capacity {
+			return gerrors.ErrMailboxFull
+		}
+		if atomic.CompareAndSwapInt64(&q.length, n, n+1) {
+			break
+		}
 	}
 
 	q.intake.push(msg)
